@@ -611,6 +611,8 @@ class Graph:
                                  % (generated, len(self.inits), self.nedges))
         for k in self.adj:
             self.adj[k].sort()
+        self.crash_points = {a[2] for es in self.adj.values() for a, _ in es if a[0] == "Crash"}
+        self.labels = {a[0] for es in self.adj.values() for a, _ in es}
         self.parent = {}                       # BFS tree: node -> (parent node, action, root)
         dq = deque()
         for i in sorted(self.inits):
